@@ -6,10 +6,11 @@ import json
 import os
 
 from harness import httpfam as H
+from harness import httpresp as R
 from harness.common import framework as fw
 
 PROP = "C10"
-GENERATED = ["HttpGen.v"]
+GENERATED = ["HttpGen.v", "HttpRespGen.v"]
 RULE = ("hostile inputs: raw random bytes, byte-mutated and smuggling-mutated valid messages, truncations, and "
         "directed streams whose start line / field / field name / chunk-size line / chunk extension / trailer / "
         "number of fields or trailers sits at limit-1, limit, limit+1; each under several limit configurations and "
@@ -238,6 +239,8 @@ def run(ctx):
                 if why or not any(m["exc"] for m in im["msgs"]):
                     ctx.violation(case, f"response parser buffers an unterminated {name} without bound: {why or im['state']}")
 
+    run_response_model(ctx, lims)
+
     # server level: parse errors become a 400 and the connection is closed; nothing escapes
     from harness.common.loop import VLoop
     loop = VLoop()
@@ -274,8 +277,144 @@ def run(ctx):
         loop.close()
 
 
+def response_edge_streams(lim):
+    """Responses in which one line sits at limit-1 / limit / limit+1 in every syntactic position of the lax
+    dialect (status line, field, folded field total, chunk-size line, trailer, header / trailer count), with the
+    read boundaries around that line's terminator.  Yields (stream, position, delta, cuts)."""
+    ml, mf, mh, _ = lim
+    out = []
+    ch = b"HTTP/1.1 200 OK\r\nTransfer-Encoding: chunked\r\n\r\n"
+    for delta in (-1, 0, 1):
+        for eol in (b"\r\n", b"\n"):
+            items = []
+            line = b"HTTP/1.1 200 " + b"R" * max(0, ml + delta - 13)
+            items.append(("status-line", b"", line, eol + b"Content-Length: 0" + eol + eol))
+            line = b"X-L: " + b"v" * max(0, mf + delta - 5)
+            items.append(("field", b"HTTP/1.1 200 OK" + eol, line, eol + b"Content-Length: 0" + eol + eol))
+            piece = b"v" * max(1, (mf + delta) // 3)
+            rest = mf + delta - len(piece)
+            if rest > 2:
+                line = b"X-F: " + piece + eol + b" " + b"w" * (rest - 1)
+                items.append(("folded-total", b"HTTP/1.1 200 OK" + eol, line, eol + b"Content-Length: 0" + eol + eol))
+            line = b"3;" + b"e" * max(0, ml + delta - 2 - (len(eol) - 1))       # the chunk-size limit counts the CR
+            items.append(("chunk-size", ch, line, eol + b"abc" + eol + b"0" + eol + eol))
+            line = b"X-T: " + b"t" * max(0, mf + delta - 5)
+            items.append(("trailer", ch + b"3" + eol + b"abc" + eol + b"0" + eol, line, eol + eol))
+            for pos, pre, line, post in items:
+                s = pre + line + post
+                mark = len(pre) + len(line)
+                cuts = sorted({c for c in (mark - 1, mark, mark + 1, mark + 2) if 0 < c < len(s)})
+                out.append((s, pos, delta, cuts))
+        k = mh + delta - 2
+        s = b"HTTP/1.1 200 OK\r\n" + b"".join(b"X-%d: v\r\n" % i for i in range(max(0, k))) + b"\r\n"
+        out.append((s, "header-count", delta, [len(s) - 2, len(s) - 1]))
+        k = mh + delta - 4          # status line + TE + empty = 3 lines of the head; trailers k + empty
+        s = ch + b"0\r\n" + b"".join(b"T-%d: v\r\n" % i for i in range(max(0, k))) + b"\r\n"
+        out.append((s, "trailer-count", delta, [len(s) - 2, len(s) - 1]))
+    return out
+
+
+def run_response_model(ctx, lims):
+    """Suite "response-parser-model": coq/Model/HttpResp.v (extracted) against HttpResponseParser on hostile and
+    limit-edge inputs, per segmentation; exception-class / retained-bytes / limit oracles on the implementation; the
+    must-reject half of the strict-reading oracle."""
+    import time as _t
+    cpu0 = _t.process_time()
+    okr, exer = R.build_model()
+    ctx.oblige("model-runner-build:HTTPRESP", "correspondence", okr, "" if okr else exer)
+    if not okr:
+        return
+    rng = ctx.rng
+    cases, meta = [], []
+    n = 260 if ctx.quick else 5000
+    for i in range(n):
+        r = rng.random()
+        if r < 0.2:
+            s, kind = H.rand_bytes(rng, rng.randint(0, 120)), "random"
+        elif r < 0.5:
+            s, kind = H.mutate_bytes(rng, R.gen_lax_stream(rng)), "mutated"
+        elif r < 0.8:
+            s, kind = R.gen_lax_stream(rng), "lax"
+        else:
+            s, kind = H.gen_response_stream(rng), "family"
+        lim = H.DEFAULT_LIM if rng.random() < 0.4 else rng.choice(H.SMALL_LIMS)
+        fl = R.flags(rng)
+        for segs in H.segmentations(rng, s, True)[: (3 if ctx.quick else 8)]:
+            cases.append((segs, lim, *fl))
+            meta.append((kind, None, None))
+    for lim in lims:
+        for s, pos, delta, cuts in response_edge_streams(lim):
+            seglist = [[s]] + [[s[:c], s[c:]] for c in cuts]
+            if len(s) < 700:
+                seglist.append([s[i:i + 1] for i in range(len(s))])
+            for segs in seglist:
+                cases.append((segs, lim, True, True, False))
+                meta.append(("edge", pos, delta))
+    for lim in lims[1:]:
+        ml, mf, mh, _ = lim
+        pad = b"z" * (max(ml, mf) * 3 + 40)
+        ch = b"HTTP/1.1 200 OK\r\nTransfer-Encoding: chunked\r\n\r\n"
+        for pos, s in (("status-line", b"HTTP/1.1 200 " + pad), ("field", b"HTTP/1.1 200 OK\r\nX: " + pad),
+                       ("fold", b"HTTP/1.1 200 OK\r\nX: a\r\n " + pad), ("trailer", ch + b"0\r\nX-T: " + pad),
+                       ("chunk-size", ch + b"0" * len(pad)), ("cr-run", b"HTTP/1.1 200 OK" + b"\r" * len(pad))):
+            cases.append(([s[i:i + 9] for i in range(0, len(s), 9)], lim, True, True, False))
+            meta.append(("unterminated", pos, 1))
+    model = R.model_run_many(exer, cases)
+    ran = 0
+    for c, m, (kind, pos, delta) in zip(cases, model, meta):
+        segs, lim = c[0], c[1]
+        im = R.impl_run(*c)
+        ran += 1
+        s = b"".join(segs)
+        decided = im["outcome"].startswith(("ERR", "ESC")) or bool(im["msgs"]) or str(im["eof"]).startswith("EOFERR")
+        ctx.case((s, c[1:], tuple(len(x) for x in segs), "resp-model"), nontrivial=decided)
+        ctx.count("resp-model-kind:" + kind)
+        ctx.count("resp-model-outcome:" + im["outcome"].split("@")[0])
+        if pos is not None:
+            ctx.count(f"resp-model-edge:{pos}:{delta:+d}")
+        case = {"parser": "response", "lim": list(lim), "segs": [x.hex() for x in segs], "kind": kind, "pos": pos, "delta": delta,
+                "with_body": c[2], "until_eof": c[3], "eof": c[4]}
+        if not R.same(m, im):
+            ctx.disagreement("response-parser-model", case, R.strip_model(m), im)
+        if im["outcome"].startswith("ESCAPE") or str(im["eof"]).startswith("ESCAPE"):
+            ctx.violation(case, f"response parser let a non-HTTP exception escape: {im['outcome']} {im['eof']}")
+        if im["outcome"].startswith("OK"):
+            why = retained_ok(im, lim, len(segs[-1]))
+            if why:
+                ctx.violation(case, "response parser retains too much: " + why)
+        if kind == "unterminated":
+            if not im["outcome"].startswith("ERR") and not any(x["exc"] for x in im["msgs"]):
+                ctx.violation(case, f"response parser buffers an unterminated {pos} of {len(s)} bytes instead of rejecting it: {im['state']}")
+        elif pos is not None:
+            rejected = im["outcome"].startswith("ERR")
+            if delta > 0 and not rejected:
+                ctx.violation(case, f"response limit not enforced: {pos} exceeds its limit by one and is accepted ({im['outcome']})")
+            if delta <= 0 and rejected and len(segs) == 1:
+                ctx.violation(case, f"response limit too strict: {pos} at limit{delta:+d} is rejected one-shot ({im['outcome']})")
+    ctx.sample({"suite": "response-parser-model", "lim": list(cases[-1][1]), "segs": [x.hex()[:80] for x in cases[-1][0][:3]]})
+    ctx.close_suite("response-parser-model", ran)
+    # strict reading, must-reject half: malformed responses are rejected under every segmentation
+    nmr = 0
+    for s, what in R.MUST_REJECT:
+        seglist = [[s], [s[i:i + 1] for i in range(len(s))]] + [[s[:c], s[c:]] for c in sorted({rng.randint(1, len(s) - 1) for _ in range(3)})]
+        for segs in seglist:
+            im = R.impl_run(segs, H.DEFAULT_LIM, True, True, True)
+            nmr += 1
+            ctx.case((s, tuple(len(x) for x in segs), "must-reject"), nontrivial=True)
+            if not (im["outcome"].startswith("ERR") or any(x["exc"] for x in im["msgs"])):
+                ctx.violation({"parser": "response", "kind": "must-reject", "lim": list(H.DEFAULT_LIM), "segs": [x.hex() for x in segs], "what": what},
+                              f"response parser, strict reading: {what} is accepted ({im['outcome']}, {len(im['msgs'])} message(s))")
+                break
+    ctx.count("suite:response-must-reject", nmr)
+    ctx.notes.append(f"response-parser-model part: {_t.process_time() - cpu0:.1f}s CPU in this process")
+
+
 def replay(ctx, case):
     lim = tuple(case["lim"]) if "lim" in case else H.DEFAULT_LIM
+    if case.get("kind") == "must-reject":
+        im = R.impl_run([bytes.fromhex(x) for x in case["segs"]], lim, True, True, True)
+        return {"impl": im["outcome"], "messages": len(im["msgs"]),
+                "violates": not (im["outcome"].startswith("ERR") or any(x["exc"] for x in im["msgs"]))}
     if case.get("parser") == "response":
         im = H.impl_run_response([bytes.fromhex(x) for x in case["segs"]], lim, eof=False)
     elif case.get("parser") == "server":
